@@ -1,7 +1,7 @@
 \* quick generating config: tables of <= 2 rows, a seeded 1/Stride sample of the table pairs, every query shape
 CONSTANTS KeySeq <- MCKeySeq  ValSeq <- MCValSeq
 CONSTANTS MaxRowsA = 2  MaxRowsB = 2  MaxRowsC = 1
-CONSTANTS Stride = 41  Seed = 1  Stride3 = 11  RScale = 40  RCheck = 2  MetaStride = 5
+CONSTANTS Stride = 41  Seed = 1  Stride3 = 11  RScale = 20  RCheck = 2  MetaStride = 5
 SPECIFICATION Spec
 INVARIANT Containment LeftPreserves CrossSize Mirror WhereFilters NullNeverMatches ImplIsRef ScaleLawHolds ThreeWay
 INVARIANT EmitInv
